@@ -195,6 +195,8 @@ type bmReq struct {
 	err       error
 	cancelled bool
 	delivered bool
+	holdSet   bool // the history has decided how long the callback goroutine is delayed
+	holdUntil int  // number of events of the history before which it is not released
 }
 
 type bmW struct {
@@ -208,11 +210,19 @@ type cancelW struct {
 	run *runner
 }
 
+// Cancel: the real block manager refuses to cancel a task that has already
+// produced its result (importTask.Cancel returns false in state validatedOut;
+// the callback is on its way in its own goroutine).  Only a successful cancel
+// means that the callback never arrives; otherwise it stays deliverable, at any
+// later point the history chooses -- also after a round change.
 func (c *cancelW) Cancel() bool {
-	c.run.bmu.Lock()
-	c.req.cancelled = true
-	c.run.bmu.Unlock()
-	return c.c.Cancel()
+	ok := c.c.Cancel()
+	if ok {
+		c.run.bmu.Lock()
+		c.req.cancelled = true
+		c.run.bmu.Unlock()
+	}
+	return ok
 }
 
 func (b *bmW) newReq(propose bool, flags int, key string) *bmReq {
